@@ -32,6 +32,21 @@ var sortStrings = []string{"a", "A", "b", "B", "ab", "Ab", "", "c", "Z", "z", "[
 // texts with code points at or above U+0100: Go lower-cases them too, the model does not (excluded from
 // the model comparison by textInModel, still judged by the oracle)
 var outsideWords = []string{"Σίσυφος", "σίσυφοσ", "İstanbul", "Жук", "жук", "ǅ"}
+
+// letters whose case mapping changes the UTF-8 length, or has several lower/upper forms: KELVIN SIGN
+// (3 bytes) -> k, I WITH DOT ABOVE (2) -> i, A WITH STROKE (2) -> U+2C65 (3), CAPITAL SHARP S (3) -> sharp s
+// (2), sigma / final sigma; with their ASCII partners.  Texts over this alphabet are judged by the oracle
+// (reference: strings.ToLower on both sides, as filter.DefaultFilterFunc and the string sorter do).
+var foldAlphabet = []string{"\u212a", "k", "K", "\u0130", "i", "I", "\u023a", "\u2c65", "\u1e9e", "\u00df", "\u03a3", "\u03c3", "\u03c2", "o", "a"}
+
+func foldWord(r *vh.Rng, maxLen int) string {
+	w := ""
+	for n := 1 + r.Intn(maxLen); n > 0; n-- {
+		w += r.Pick(foldAlphabet)
+	}
+	return w
+}
+
 var floats = []float64{-1.5, math.Copysign(0, -1), 0, 0.5, 2, 2.0000000000000004, 1e300, -1e-300, 1e-300, 3.25, -2}
 var strKeys = []string{"a", "A", "b", "k1", "k2", "k 3", "", "x/y", "é", "zz", "0", "1", "01", "key", "Key", "q\"", "=", "MQ==", "-", "~"}
 
@@ -357,6 +372,32 @@ func genCase(r *vh.Rng) Case {
 			c.Args.FilterText, c.Args.FilterType = pstr(r.Pick(filterTexts)), nil
 			fs := []string{r.Pick(textAttrs) + "_" + im}
 			c.Args.FilterFields = &fs
+		}
+	}
+	if c.Field != "bareI" && !c.Panic && len(c.Items) > 0 && r.Chance(6) {
+		// case-folding family: node texts, sort strings and the filter text over foldAlphabet
+		for i := range c.Items {
+			for a := 0; a < 3; a++ {
+				c.Items[i].T[a] = foldWord(r, 3)
+			}
+			c.Items[i].S = foldWord(r, 2)
+		}
+		ft := foldWord(r, 2)
+		if r.Chance(30) {
+			ft += " " + foldWord(r, 1)
+		}
+		if r.Chance(15) {
+			ft = "\"" + ft + "\""
+		}
+		c.Args.FilterText, c.Args.FilterType = pstr(ft), nil
+		if r.Chance(50) {
+			c.Args.FilterFields = nil
+		}
+		if r.Chance(40) {
+			c.Args.SortBy = pstr("s0_" + r.Pick(impls))
+		}
+		if c.Kind == "page" && (c.Args.After != nil || c.Args.Before != nil) && r.Chance(60) {
+			c.Args.After, c.Args.Before = nil, nil
 		}
 	}
 	if c.Field == "dualI" && r.Chance(30) {
